@@ -134,6 +134,98 @@ theorem expandSteps_eq (inv : Inv) (h : inv.args ≠ []) :
 theorem expand_eq (inv : Inv) (h : inv.args ≠ []) : expand inv = some (specExpansion inv) := by
   simp [expand, expandSteps_eq inv h]
 
+/-! ## The local macro on the tokens of a call -/
+
+/-- `e₁, e₂, …, eₙ,` : every expression followed by a comma. -/
+def terminated {α} (xs : List α) : List (CTok α) := xs.flatMap (fun x => [.expr x, .comma])
+
+/-- `, e₁, e₂ … , eₙ` : every expression preceded by a comma. -/
+def preceded {α} (xs : List α) : List (CTok α) := xs.flatMap (fun x => [.comma, .expr x])
+
+theorem terminated_cons {α} (x : α) (xs : List α) : terminated (x :: xs) = .expr x :: .comma :: terminated xs := by
+  simp [terminated]
+
+theorem preceded_cons {α} (x : α) (xs : List α) : preceded (x :: xs) = .comma :: .expr x :: preceded xs := by
+  simp [preceded]
+
+theorem callToks_true {α} : ∀ (xs : List α), callToks xs true = terminated xs
+  | [] => rfl
+  | [x] => by simp [callToks, terminated]
+  | x :: y :: xs => by
+    rw [terminated_cons, ← callToks_true (y :: xs)]
+    rfl
+
+theorem callToks_false {α} : ∀ (x : α) (xs : List α), callToks (x :: xs) false = .expr x :: preceded xs
+  | x, [] => by simp [callToks, preceded]
+  | x, y :: xs => by
+    rw [preceded_cons, ← callToks_false y xs]
+    rfl
+
+theorem matchArm2_terminated {α} : ∀ (xs : List α), matchArm2 (terminated xs) = some xs
+  | [] => rfl
+  | x :: xs => by
+    rw [terminated_cons]
+    simp [matchArm2, matchArm2_terminated xs]
+
+theorem matchCommaExprs_preceded {α} : ∀ (xs : List α), matchCommaExprs (preceded xs) = some xs
+  | [] => rfl
+  | x :: xs => by
+    rw [preceded_cons]
+    simp [matchCommaExprs, matchCommaExprs_preceded xs]
+
+/-- Arm 1 does not match a comma-terminated list: after the last comma the repetition finds the end of the input. -/
+theorem matchCommaExprs_comma_terminated {α} : ∀ (xs : List α), matchCommaExprs (.comma :: terminated xs) = none
+  | [] => rfl
+  | x :: xs => by
+    rw [terminated_cons]
+    simp [matchCommaExprs, matchCommaExprs_comma_terminated xs]
+
+theorem matchArm1_terminated {α} : ∀ (xs : List α), matchArm1 (terminated xs) = none
+  | [] => rfl
+  | x :: xs => by
+    rw [terminated_cons]
+    simp [matchArm1, matchCommaExprs_comma_terminated xs]
+
+theorem matchArm1_callToks_false {α} (x : α) (xs : List α) : matchArm1 (callToks (x :: xs) false) = some (x, xs) := by
+  rw [callToks_false]
+  simp [matchArm1, matchCommaExprs_preceded]
+
+theorem transcribeArm1_eq {α} (x : α) (xs : List α) : transcribeArm1 x xs = terminated (x :: xs) := by
+  rw [terminated_cons]
+  rfl
+
+/-- A comma-terminated call is transcribed by arm 2 in one step. -/
+theorem callStep_terminated {α} (e : Expansion) (xs : List α) :
+    callStep e (.inv (terminated xs)) = some (.done xs e.recCallTail) := by
+  simp [callStep, matchArm1_terminated, matchArm2_terminated]
+
+/-- A call without trailing comma is re-invoked by arm 1 with the comma added. -/
+theorem callStep_callToks_false {α} (e : Expansion) (x : α) (xs : List α) :
+    callStep e (.inv (callToks (x :: xs) false)) = some (.inv (terminated (x :: xs))) := by
+  simp [callStep, matchArm1_callToks_false, transcribeArm1_eq]
+
+theorem callRun_eq {α} (e : Expansion) (xs : List α) (tc : Bool) :
+    callRun e 2 0 (.inv (callToks xs tc)) =
+      some (xs, e.recCallTail, if tc = true ∨ xs = [] then 1 else 2) := by
+  cases tc with
+  | true =>
+    rw [callToks_true]
+    simp [callRun, callStep_terminated]
+  | false =>
+    cases xs with
+    | nil =>
+      have : callToks ([] : List α) false = terminated [] := rfl
+      rw [this]
+      simp [callRun, callStep_terminated]
+    | cons x xs =>
+      simp [callRun, callStep_callToks_false, callStep_terminated]
+
+/-- Both call syntaxes, any number of expressions: the inner fn is called with the user's expressions
+    unchanged and in order, followed by `recCallTail`. -/
+theorem expandCall_eq {α} (e : Expansion) (xs : List α) (tc : Bool) :
+    expandCall e xs tc = some (xs, e.recCallTail) := by
+  simp [expandCall, callRun_eq]
+
 /-! ## Semantics: frames of the generated code -/
 
 /-- The references the closure passes for the captures (`&c…, &mut m…`), in wiring order. -/
@@ -384,11 +476,11 @@ theorem run_eq (inv : Inv) (hs : Supported inv) (vs : List Val)
         cases m with
         | true => simpa using ih (s.set n v)
         | false => simp
-  | call ws k ih =>
+  | call tc ws k ih =>
     intro s
     have hp : passNames (canonFrame inv vs) (specExpansion inv).recCallTail = .ok (refs inv.caps) :=
       passNames_canon inv hs vs
-    simp only [runG, runE, hp, hc]
+    simp only [runG, runE, expandCall_eq, hp, hc]
     cases cE ws s with
     | error e => rfl
     | ok r => exact ih r.1 r.2
